@@ -968,6 +968,31 @@ def rewrite_print(toks, fns):
       f(args) for f in fns  -> f(vf_out, args)            (the matching parameter is added to f's signature by rewrite_fn)
     Pieces are written in format-string order, arguments are taken by reference as the macro does. Statement position
     gives plain statements, expression position a block."""
+    # R21b: eprint!/eprintln! write to stderr, which is not modelled: the ARGUMENTS are still evaluated (by reference,
+    # as the macro does) so that their own obligations are generated; the text is dropped
+    changed = True
+    while changed:
+        changed = False
+        for s, o, c, name in _macro_calls(toks, {"eprint", "eprintln"}):
+            like = toks[s]
+            marks = [t for t in toks[s:c + 1] if t.k == "mark"]
+            args = [[t for t in a if t.k != "mark"] for a in split_args(toks[o + 1:c])]
+            if args:
+                fmt = strip_ws(args[0])
+                if len(fmt) != 1 or fmt[0].k != "str":
+                    raise ExtractError("%s!: first argument is not a string literal at line %d" % (name, like.line))
+            new = []
+            for n_, a in enumerate(args[1:]):
+                new += (T("; ", like) if n_ else []) + T("vf_stderr_note(&(", like) + a + T("))", like)
+            nx = sidx(toks, c + 1)
+            stmt = nx < len(toks) and is_p(toks[nx], ";")
+            if not stmt:
+                new = T("{ ", like) + new + T("; }", like)
+            elif not new:
+                new = T("()", like)
+            toks[s:c + 1] = new + marks
+            changed = True
+            break
     changed = True
     while changed:
         changed = False
